@@ -67,7 +67,7 @@ CLAIMS = {
              "on that information (the parameter in assignValue, a member set from it in the list loops of the "
              "multi-value destinations), canonical key for constraint matching, every successful assign() makes hasValue() "
              "true (mandatory check), value constraints relate only values that "
-             "were given (compareValue() reachable only through hasValue()-true edges of both arguments); the complete key of a sub-group argument is not pre-empted by a normal argument it abbreviates (lookup table over both key containers, shared with C05-R5); the repeatable built-in arguments (end-of-values marker, listing arguments) are defined without upper cardinality; the cursor invariant of the tokeniser (every word is analysed from its first character, shared with C04-R6). The general statement is not "
+             "were given (compareValue() reachable only through hasValue()-true edges of both arguments); the complete key of a sub-group argument is not pre-empted by a normal argument it abbreviates (lookup table over both key containers, shared with C05-R5); the repeatable built-in arguments (end-of-values marker, listing arguments) are defined without upper cardinality; the cursor invariant of the tokeniser (every word is analysed from its first character, shared with C04-R6); after a sub-group argument the main handler continues with the first word the sub-group handler did not consume (table over words x consumed words). The general statement is not "
              "decidable statically and is not claimed.",
         note="trusts clang AST/CFG; boost::lexical_cast converts every representable value; interaction of arbitrary "
              "checks/formats/constraints is not decided", also=("engine B (boolshape.py)",),
